@@ -69,10 +69,11 @@ def tree(v, ver=None):
                     x = getattr(v, "co_lnotab", b"")
                 if ver is not None and ver < (1, 5):
                     x = b""
-                fs.append([f, ["bytes", hx(x)] if not isinstance(x, dict) else ["other", "dict"]])
+                # kind included: a text line table is not a bytes line table
+                fs.append([f, tree(x, ver) if not isinstance(x, dict) else ["other", "dict"]])
                 continue
             if f == "co_code":
-                fs.append([f, ["bytes", hx(v.co_code)]])
+                fs.append([f, tree(v.co_code, ver)])
                 continue
             if f in ("co_qualname", "co_exceptiontable"):
                 if ver is not None and ver < (3, 11):
